@@ -235,9 +235,10 @@ def r3_error_propagation(ctx):
             if key.endswith("step"):
                 # skip the running process's own result writes (object = current process lookups by current_pid)
                 args = [x[2]["args"][1] for x in objsrc if x[0] == "call" and (x[2].get("callee") or "").endswith("get_process_mut")]
-                fl0 = Flow(b)
-                names = {b.local_name((fl0.canon_op(a) or (0,))[0]) for a in args}
-                if names & {"current_pid"}:
+                # by provenance, not by name: the id popped from the run queue at the top of the step
+                popped = {t2["dest"]["l"] for _b2, t2 in b.calls() if (t2.get("callee") or "").endswith("VecDeque::pop_front")}
+                if any(op_place(a) and (fl.backward({op_place(a)["l"]}, through_calls=("Option::unwrap", "Try::branch", "Option::expect", "Option::ok_or", "Option::ok_or_else")) & popped)
+                       for a in args):
                     continue
             v = op_place(s["rv"].get("op")) if s["rv"]["k"] == "use" else None
             if v is None:
